@@ -12,7 +12,8 @@ RULE = ("A case is (protocol version, start value of the process-global message 
         "sequence of 30-260 operations drawn from {get_capabilities, refresh, toggle_display with beep on/off, apply "
         "with random set-state fields, apply after setting each property to each of its values, start_self_clean}). "
         "Every client frame is parsed by the strict reference parser on the device side, classified, and its message "
-        "id compared with the previous one. Distinct = distinct plan; non-trivial = at least 30 commands were checked.")
+        "id compared with the previous one. Distinct = distinct plan; non-trivial = at least 30 commands were checked."
+        " Later additions: ops 'bad_apply' (a write the encoder refuses), 'race_caps', 'failed_connect_gap' (a command built but never transmitted, then 1-512 commands), part 'commands_built_directly' (Command subclasses' tobytes() with every attribute value, record order and many commands per process).")
 ASSUMPTIONS = [
     "strict frame parser = refmodel/codec.frame_parse_strict (0xAA, length byte = len-1, 0xAC, body || id || CRC-8(body||id), "
     "two's-complement checksum); frame type 0x02 for 0x40/0xB0 bodies and 0x03 for queries (toggle display is a query "
